@@ -1,5 +1,6 @@
 import Driver.Common
 import Model.Draws
+import Model.DrawsSession
 import Generated.DrawCatalogue
 open Lean Drv Draws
 
@@ -30,6 +31,43 @@ def parseGen (j : Json) : Except String Gen := do
     | _ => throw "bad-op"
   pure { family := f, symmetric := ← getBool j "symmetric", antithetic := ← getBool j "antithetic",
          normal := ← getBool j "normal" }
+
+def callErrStr : CallErr → String
+  | .gen e => errStr e
+  | .uniformCount => "BiogemeError:uniform_numbers"
+
+def arrJ : Arr Float → Json
+  | .ok rows => Json.mkObj [("rows", jMat rows)]
+  | .error e => Json.mkObj [("err", jStr (callErrStr e))]
+
+def genOf (j : Json) : Except String Gen :=
+  match j.getObjVal? "name" with
+  | .ok (Json.str name) =>
+    match Generated.drawCatalogue.find? (fun e => e.name == name) with
+    | some e => pure e.gen
+    | none => throw "unknown-type"
+  | _ => parseGen j
+
+/-- one operation of a session (Model/DrawsSession.lean) -/
+def parseOp (j : Json) : Except String (Op Float) := do
+  let t ← getStr j "t"
+  match t with
+  | "cat" =>
+    pure (.call (.cat (← genOf j) (← getNat j "n") (← getNat j "R") (← floatList (← j.getObjVal? "us"))
+      (← natList (← j.getObjVal? "perm"))))
+  | "halton" =>
+    pure (.call (.halton (← getNat j "base") (← getNat j "skip") (← getNat j "n") (← getNat j "R")
+      (← getBool j "symmetric") (← getBool j "shuffled") (← natList (← j.getObjVal? "perm"))))
+  | "lhs" =>
+    pure (.call (.lhs (← getNat j "n") (← getNat j "R") (← getBool j "symmetric")
+      (← floatList (← j.getObjVal? "us")) (← natList (← j.getObjVal? "perm"))))
+  | "wichura" =>
+    pure (.call (.wichura (← getNat j "n") (← getNat j "R") (← getBool j "antithetic")
+      (← floatList (← j.getObjVal? "us"))))
+  | "scale" => pure (.scale (← getNat j "k") (← getFloat j "c"))
+  | "fill" => pure (.fill (← getNat j "k") (← getFloat j "c"))
+  | "reverse" => pure (.reverse (← getNat j "k"))
+  | _ => throw "bad-op"
 
 def handle (j : Json) : Except String Json := do
   let op ← getStr j "op"
@@ -66,6 +104,29 @@ def handle (j : Json) : Except String Json := do
     | .ok t => pure (Json.mkObj [("table", jArr (t.map jMat)),
                                  ("accepted", jArr (vars.map fun d => jBool (dimsAccepted n r d.dims))),
                                  ("counts", jNats (vars.map fun d => dimsCount d.dims))])
+  | "registry" =>
+    -- a history of set_random_number_generators on one Database, then the resolution of type names
+    let sets ← (← getArr j "sets").toList.mapM fun x => do
+      let a ← asArr x
+      a.toList.mapM asStr
+    let names ← (← getArr j "names").toList.mapM asStr
+    let cat := Generated.drawCatalogue
+    let step := fun (acc : List Bool × List String) (keys : List String) =>
+      let r := setGenerators cat acc.2 keys
+      (acc.1 ++ [r.1], r.2)
+    let (accepted, reg) := sets.foldl step ([], [])
+    let resJ : Resolved → Json
+      | .native _ => jStr "native"
+      | .user k => jStr ("user:" ++ k)
+      | .unknownType => jStr "unknown"
+    pure (Json.mkObj [("accepted", jArr (accepted.map jBool)), ("registry", jStrs reg),
+                      ("same", jBool (reg == registryAfter cat sets)),
+                      ("resolved", jArr (names.map fun n => resJ (resolve cat reg n)))])
+  | "session" =>
+    let ops ← (← getArr j "ops").toList.mapM parseOp
+    let s := run ops
+    pure (Json.mkObj [("returned", jArr (s.returned.map arrJ)), ("held", jArr (s.held.map arrJ)),
+                      ("calls", jNat (callsOf ops).length)])
   | "halton" =>
     let b ← getNat j "base"
     let skip ← getNat j "skip"
